@@ -389,6 +389,18 @@ void do_start(TaskState &ts, const Op &op)
                        rec.trace_id.c_str()));
     rec.expect_parent = "0000000000000000";
   }
+  // a custom id generator must be the source of every fresh id
+  if (W->c->knob("idgen", 0))
+  {
+    if (rec.span_id.compare(0, 2, "5e") != 0)
+      vsim::report("C05.id_generator_bypassed",
+                   fmt("%s: span id %s does not come from the configured id generator", where,
+                       rec.span_id.c_str()));
+    if (!parent.IsValid() && rec.trace_id.compare(0, 2, "7e") != 0)
+      vsim::report("C05.id_generator_bypassed",
+                   fmt("%s: trace id %s does not come from the configured id generator", where,
+                       rec.trace_id.c_str()));
+  }
   W->trace_ids.insert(rec.trace_id);
   if (!W->span_ids.insert(rec.span_id).second)
     vsim::report("C05.span_id_not_unique", fmt("%s: span id %s already used", where,
